@@ -57,6 +57,9 @@ COLD_CORPUS = [
     (['str', 'a long string with words that has to be split over several lines at this width'], {'width': 30}),
     (['bytes', (b'bytes \x00 with \xff escapes ' * 4).hex()], {'width': 30}),
     (['graph', {'kinds': ['list', 'dict'], 'edges': [[1, 1], [0]], 'root': 0, 'root2': 1}], {}),
+    (['cmt', 'note', ['std', 'uuid', '12345678123456781234567812345678']], {}),
+    (['list', [['cmt', 'member', ['std', 'enum', 'Color', 'GREEN']], ['int', 1]]], {}),
+    (['dict', [[['str', 'p'], ['tcmt', 'tc', ['std', 'path', 'PurePosixPath', '/a/b']]]]], {}),
     (['pred', 1, 7], {}),
     (['list', [['pred', 0, 8]]], {}),
     (['dict', [[['str', 'k'], ['cmt', 'the quick brown fox jumps over the lazy dog again and again until the line has to wrap', ['list', [['int', 1], ['int', 2]]]]]]], {'width': 40}),
@@ -311,7 +314,7 @@ def custom_phase(tier, seed, st, procs):
     jobs = []
     for i, (r, cfg) in enumerate(corpus):
         jobs.append((i, None, [['ok', r, cfg]]))
-    targets = range(len(corpus)) if tier == 'thorough' else [0, 1, 5, 12, 16, 17, 23, 24, 25, 26, 27]
+    targets = range(len(corpus)) if tier == 'thorough' else [0, 1, 5, 12, 16, 17, 23, 24, 25, 26, 27, 28, 29, 30]
     for k, (mode, ir, icfg) in enumerate(INTERFERERS):
         for i in targets:
             r, cfg = corpus[i]
